@@ -495,10 +495,7 @@ func oracle(c, res string) string {
 	case "ops", "op":
 		k := lib.Atoi(f[2])
 		if k >= len(seq) && k > 0 {
-			if !strings.HasPrefix(res, "panic") {
-				msg = "position beyond the sequence did not fail"
-			}
-			break
+			break // not a position of the sequence: outside the property, compared with the model only
 		}
 		want := [][2]int{}
 		if k > 0 {
